@@ -184,6 +184,33 @@ contract(PR + "Parser._select_last_background_step_type", props=["C05", "C04"], 
          doc="never raises (no `raises`): a Background without steps yields None, so And/But as first step is reported as "
              "ParserError by parse_step, not as IndexError")
 
+# -- tag lines before the Feature keyword accumulate ---------------------------------------------------------------------
+oracle("tags_of_line", ["ref", "val"], "val")
+contract("abs:Parser.parse_tags.view", trusted=True, params={"self": "ref:Parser"}, pos_params=["self", "line"], fresh_result="list",
+         raises=[Raises("ParserError", when=None)],
+         ensures={"value": "len(result) == len(as_list(tags_of_line(self, line), 'any')) and forall(lambda k: implies(0 <= k < len(result), "
+                           "result[k] == as_list(tags_of_line(self, line), 'any')[k]))"},
+         doc="call-site view of parse_tags (its own contract, proved above, says which tags a line yields)")
+contract("abs:Parser.match_keyword", trusted=True, params={"self": "ref:Parser"}, pos_params=["self", "keyword", "line"], pure=True,
+         result="any", doc="keyword table lookup (bounded)")
+contract("abs:Parser._build_feature.view", trusted=True, params={"self": "ref:Parser"}, pos_params=["self", "keyword", "line"],
+         modifies=_BUILD_MOD, doc="call-site view of _build_feature (proved above)")
+contract(PR + "Parser.action_initial", props=["C04"], params={"self": "ref:Parser", "line": "str"}, self_classes=["Parser"], result="bool",
+         callsites={"self.parse_tags": "abs:Parser.parse_tags.view", "self.match_keyword": "abs:Parser.match_keyword",
+                    "self._build_feature": "abs:Parser._build_feature.view"},
+         raises=[Raises("ParserError", when=None, label="malformed-tag-line")],
+         modifies=_BUILD_MOD + ["self.state", "list(self.tags)"],
+         ensures={"a-tag-line-is-consumed-and-the-pending-list-grows-by-its-tags":
+                  "implies(line.strip().startswith('@'), result == True and self.tags is old(self.tags) and "
+                  "len(self.tags) == old(len(self.tags)) + old(len(as_list(tags_of_line(self, line.strip()), 'any'))))",
+                  "a-tag-line-keeps-the-tags-of-earlier-lines":
+                  "implies(line.strip().startswith('@'), "
+                  "forall(lambda k: implies(0 <= k < old(len(self.tags)), self.tags[k] == old(self.tags[k]))))",
+                  "a-tag-line-adds-its-tags-after-them-in-order":
+                  "implies(line.strip().startswith('@'), forall(lambda j: implies(old(len(self.tags)) <= j and j < len(self.tags), "
+                  "self.tags[j] == old(as_list(tags_of_line(self, line.strip()), 'any')[j - len(self.tags)]))))"},
+         doc="feature tags may span several lines (with comments and blank lines between them): none is dropped")
+
 # -- parse_step: the longest matching keyword alias over all step types wins ---------------------------------------------
 TYPES5 = ("given", "when", "then", "and", "but")
 macro("kwlist", ["p", "t"], "as_list(dict_value(p.keywords, t), 'str')")
